@@ -55,6 +55,7 @@ type Obligation struct {
 	Guard  Term
 	Goal   Term
 	Cover  bool // expected sat (vacuity / reachability check)
+	Case   int  // case number when an obligation is split (per return path)
 	unit   *Unit
 	Quantified bool
 	rec    *Rec
@@ -133,6 +134,9 @@ func (u *Unit) assumeRec(t Term, rec *Rec) {
 		return
 	}
 	for _, q := range rec.Quants {
+		if q.Ex {
+			continue
+		}
 		if (len(q.Offs) > 0 || len(q.TVars) > 0) && strings.Contains(t, q.Text) {
 			u.hyps = append(u.hyps, hyp{len(u.cmds), t, q})
 		}
@@ -206,7 +210,7 @@ func (u *Unit) get(st *State, name string) Term {
 	if t, ok := st.comp[name]; ok {
 		return t
 	}
-	if st.epoch > 0 {
+	if st.epoch > 0 && !isGhostTrace(name) {
 		key := fmt.Sprintf("%s@%d", name, st.epoch)
 		if t, ok := u.entry[key]; ok {
 			return t
@@ -343,6 +347,17 @@ func (u *Unit) oblige(fn, kind, label, pos, src string, guard, goal Term) *Oblig
 	return u.obligeRec(fn, kind, label, pos, src, guard, goal, nil)
 }
 
+// obligeCase adds one case (e.g. one return path) of an obligation with a fixed name; the obligation is
+// discharged when all its cases are. Nothing is assumed afterwards.
+func (u *Unit) obligeCase(name, fn, kind, label, pos, src string, guard, goal Term, rec *Rec, k int) {
+	o := &Obligation{Name: name, Func: fn, Kind: kind, Label: label, Pos: pos, Src: src, Prefix: len(u.cmds), Guard: guard, Goal: goal, unit: u,
+		Quantified: strings.Contains(goal, "(forall") || strings.Contains(goal, "(exists"), rec: rec, Case: k}
+	if guard == "false" {
+		o.Goal = "true"
+	}
+	u.Obls = append(u.Obls, o)
+}
+
 func (u *Unit) obligeRec(fn, kind, label, pos, src string, guard, goal Term, rec *Rec) *Obligation {
 	name := fn + "#" + kind
 	if label != "" {
@@ -457,7 +472,7 @@ func (o *Obligation) instantiate() (Term, []string) {
 	var skolems []skolem
 	if o.rec != nil {
 		for i, q := range o.rec.Quants {
-			if !strings.Contains(goal, q.Text) {
+			if !strings.Contains(goal, q.Text) || q.Ex {
 				continue
 			}
 			if len(q.TVars) > 0 {
@@ -492,6 +507,31 @@ func (o *Obligation) instantiate() (Term, []string) {
 	}
 	if len(cands) > 24 {
 		cands = cands[:24]
+	}
+	// existential goals: offer the candidate index terms as witnesses (goal' = goal \/ instances, and instances => goal)
+	if o.rec != nil {
+		for _, q := range o.rec.Quants {
+			if !q.Ex || !strings.Contains(goal, q.Text) {
+				continue
+			}
+			alts := []Term{q.Text}
+			offs := map[Term]bool{"0": true}
+			for _, off := range q.Offs {
+				offs[off] = true
+			}
+			seenAlt := map[Term]bool{}
+			for off := range offs {
+				for _, c := range cands {
+					t := "(- " + c + " " + off + ")"
+					a := "(and " + strings.ReplaceAll(q.Rng, q.Var, t) + " " + strings.ReplaceAll(q.Body, q.Var, t) + ")"
+					if !seenAlt[a] {
+						seenAlt[a] = true
+						alts = append(alts, a)
+					}
+				}
+			}
+			goal = strings.ReplaceAll(goal, q.Text, "(or "+strings.Join(alts, " ")+")")
+		}
 	}
 	done := map[string]bool{}
 	for _, h := range u.hyps {
@@ -555,4 +595,9 @@ func SafeName(s string) string {
 		}
 	}
 	return b.String()
+}
+
+// isGhostTrace reports whether a component belongs to the ghost event trace (never havocked with the heap).
+func isGhostTrace(name string) bool {
+	return name == "clock" || strings.HasPrefix(name, "cnt_") || strings.HasPrefix(name, "arg_") || strings.HasPrefix(name, "at_")
 }
